@@ -382,6 +382,23 @@ pub fn gen(prop: &str, tier: &str, seed: u64, out: &mut Vec<String>) {
                                     }
                                 }
                                 out.push(format!("{} {b} {size} {bs} {ql} {src} 0:0:$", dec_op(&mut r)));
+                                // the same through the decode_ranges drivers: a receiver whose outboard claims another size
+                                for &c in claims.iter().filter(|c| **c <= 200_000) {
+                                    if !t && r.chance(1, 2) {
+                                        continue;
+                                    }
+                                    let fl = if r.chance(1, 2) { "sync" } else { "fsm" };
+                                    let sink = *r.pick(SINKS);
+                                    out.push(format!("decr {fl} {sink} {b} {bs} {ql} {src} 0:0:$ 7 c{c}"));
+                                    if c <= 60_000 {
+                                        let pad = format!("idx:{c}");
+                                        let src2 = format!("{src};{}", honest(&pad, bs, q));
+                                        out.push(format!("decr {fl} {sink} {b} {bs} {ql} {src2} 1:0:$ 7 c{c}"));
+                                    }
+                                    if r.chance(1, 3) {
+                                        out.push(format!("decr {fl} {sink} {b} {bs} {ql} {src} 0:0:0 7 c{c}"));
+                                    }
+                                }
                             }
                             "C20" => {
                                 out.push(format!("dec fsm {b} {size} {bs} {ql} {src} 0:0:$"));
@@ -415,7 +432,12 @@ pub fn gen(prop: &str, tier: &str, seed: u64, out: &mut Vec<String>) {
                                         let fk = *r.pick(&["Other", "Interrupted", "Interrupted", "UnexpectedEof", "ConnectionReset"]);
                                         let fl = if r.chance(2, 3) { "fsm" } else { "sync" };
                                         let sink = *r.pick(SINKS);
-                                        let expr = if r.chance(3, 4) { "0:0:$".to_string() } else { format!("0:0:$~{}^{}", r.below(len + 1), 1 + r.below(255)) };
+                                        // honest, tampered, or ending inside an item (std's read_exact then makes a second call)
+                                        let expr = match r.below(8) {
+                                            0 | 1 | 2 | 3 => "0:0:$".to_string(),
+                                            4 | 5 => format!("0:0:$~{}^{}", r.below(len + 1), 1 + r.below(255)),
+                                            _ => format!("0:0:{}", r.below(len + 1)),
+                                        };
                                         out.push(format!("decrt {k} {fk} {fl} {sink} {b} {bs} {ql} {src} {expr} {}", 1 + r.below(200)));
                                     }
                                 }
